@@ -19,6 +19,7 @@ RULE = (
     "invocation index<2) that occurs; EVERY such point is then injected as the failing one, one at a time (plus sampled pairs in one step), "
     "under run (raise and continue) and top-level map (raise and continue), SyncRunner and AsyncRunner under seeded schedules. "
     "Non-trivial = the injected failure actually fired; distinct = digest of (program shape, failure point, mode, completion order)."
+    ' Also: four kinds of injected exception (with/without arguments, TypeError with a call-mismatch text, KeyError), explicit select of all data outputs with on_missing="error" on the failing runs, and partial values of failed items of a top-level map compared between the runners (key presence).'
 )
 ASSUMPTIONS = [
     "the state before the failing step equals the fault-free run's state before that step (checked differentially through the step tap)",
